@@ -130,6 +130,17 @@ def gen_scenario(rng, index):
             seq += [{"op": "new", "n": n2, "slot": sl2, "t": b}] + [{"op": "call", "n": n2, "slot": sl2, "p": k} for k in range(4)]
             at = rng.randrange(len(ops) + 1)
             ops[at:at] = seq
+    # clock faults, drawn last: a node sits idle for seconds .. a year (both of its clocks), sometimes with a step of its wall clock
+    # alone (also backwards); often a compile on that node follows, since that is where sweeps and expiries tend to be run
+    if rng.random() < 0.4:
+        for _ in range(rng.choice([1, 2, 3, 5])):
+            n = rng.randrange(n_nodes)
+            at = rng.randrange(1, len(ops) + 1)
+            seq = [dict(common.gen_idle(rng), n=n)]
+            if rng.random() < 0.5:
+                seq.append({"op": "new", "n": n, "slot": n_slots, "t": rng.randrange(len(texts))})     # a slot of its own
+                seq.append({"op": "drop", "n": n, "slot": n_slots})
+            ops[at:at] = seq
     return {"index": index, "texts": texts, "nodes": nodes, "n_slots": n_slots, "ops": ops}
 
 
@@ -246,6 +257,12 @@ class Runner:
                         elif res[0] == "ok":
                             model[ni][slot] = op["t"]
                         self.bump("fault.recompile_cycle")
+                elif k == "idle":
+                    nodes[op["n"]].request({"op": "idle", "dt": op["dt"], "wall_step": op.get("wall_step", 0.0)})
+                    self.bump("fault.clock_idle_period")
+                    self.bump("sim_idle_seconds", int(op["dt"]))
+                    if op.get("wall_step"):
+                        self.bump("fault.clock_wall_step")
                 elif k == "drop":
                     ni, slot = op["n"], str(op["slot"])
                     if slot in model[ni]:
@@ -530,7 +547,8 @@ def master(tier, seed):
         "interpreter_starts": stats.get("node_starts", 0),
         "runs_per_hour": int(runs / wall * 3600) if wall > 0 else 0,
         "seeds": {"VERIF_SEED": seed, "run_indices": "0..%d" % max(0, runs - 1)},
-        "simulated_time": "not applicable: no clock or timer in the system; logical operations are reported",
+        "simulated_time": "%d simulated seconds of idle periods on the nodes' clocks (each node has its own simulated wall and monotonic clock, skewed "
+                          "at start, moved by reads and by generated idle operations; the pinned tree reads no clock)" % stats.get("sim_idle_seconds", 0),
         "real_components": ["child interpreter processes", "pyab_experiment", "pydantic", "hashlib"],
         "stubbed_components": ["none in the package; the 'network' is a synchronous pipe owned by the simulator",
                                "per-node entropy sources (os.urandom, random seed, time.time / monotonic, os.getpid) fed from the scenario",
